@@ -59,3 +59,69 @@ package interpreter
 //@   requires (spec.wf_stack stack)
 //@ func interpreter.setStack
 //@   requires (spec.wf_stack stack)
+
+// ---- script numbers (ghost: (bigval p) is the mathematical value of the *big.Int p) ----
+//@ func interpreter.(*scriptNumber).IsZero
+//@   pure
+//@   ensures[iszero] (= result (= (bigval (. n val)) 0))
+//@ func interpreter.(*scriptNumber).Add
+//@   assigns (bigcell (. n val))
+//@   ensures[C05.num_add] (= (bigval (. n val)) (+ (old (bigval (. n val))) (old (bigval (. o val)))))
+//@ func interpreter.(*scriptNumber).Sub
+//@   assigns (bigcell (. n val))
+//@   ensures[C05.num_sub] (= (bigval (. n val)) (- (old (bigval (. n val))) (old (bigval (. o val)))))
+//@ func interpreter.(*scriptNumber).Mul
+//@   assigns (bigcell (. n val))
+//@   ensures[C05.num_mul] (= (bigval (. n val)) (* (old (bigval (. n val))) (old (bigval (. o val)))))
+//@ func interpreter.(*scriptNumber).Div
+//@   requires (distinct (bigval (. o val)) 0)
+//@   assigns (bigcell (. n val))
+//@   ensures[C05.num_div] (= (bigval (. n val)) (spec.tdiv (old (bigval (. n val))) (old (bigval (. o val)))))
+//@ func interpreter.(*scriptNumber).Mod
+//@   requires (distinct (bigval (. o val)) 0)
+//@   assigns (bigcell (. n val))
+//@   ensures[C05.num_mod] (= (bigval (. n val)) (- (old (bigval (. n val))) (* (old (bigval (. o val))) (spec.tdiv (old (bigval (. n val))) (old (bigval (. o val)))))))
+//@ func interpreter.(*scriptNumber).Incr
+//@   assigns (bigcell (. n val))
+//@   ensures[C05.num_incr] (= (bigval (. n val)) (+ (old (bigval (. n val))) 1))
+//@ func interpreter.(*scriptNumber).Decr
+//@   assigns (bigcell (. n val))
+//@   ensures[C05.num_decr] (= (bigval (. n val)) (- (old (bigval (. n val))) 1))
+//@ func interpreter.(*scriptNumber).Neg
+//@   assigns (bigcell (. n val))
+//@   ensures[C05.num_neg] (= (bigval (. n val)) (- (old (bigval (. n val)))))
+//@ func interpreter.(*scriptNumber).Abs
+//@   assigns (bigcell (. n val))
+//@   ensures[C05.num_abs] (= (bigval (. n val)) (abs (old (bigval (. n val)))))
+//@ func interpreter.(*scriptNumber).Set
+//@   assigns (bigcell (. n val))
+//@   ensures[C05.num_set] (= (bigval (. n val)) i)
+//@ func interpreter.(*scriptNumber).LessThanInt
+//@   pure
+//@   ensures[C05.num_ltint] (= result (< (bigval (. n val)) i))
+//@ func interpreter.(*scriptNumber).GreaterThanInt
+//@   pure
+//@   ensures[C05.num_gtint] (= result (> (bigval (. n val)) i))
+//@ func interpreter.(*scriptNumber).EqualInt
+//@   pure
+//@   ensures[C05.num_eqint] (= result (= (bigval (. n val)) i))
+//@ func interpreter.(*scriptNumber).LessThan
+//@   pure
+//@   ensures[C05.num_lt] (= result (< (bigval (. n val)) (bigval (. o val))))
+//@ func interpreter.(*scriptNumber).LessThanOrEqual
+//@   pure
+//@   ensures[C05.num_le] (= result (<= (bigval (. n val)) (bigval (. o val))))
+//@ func interpreter.(*scriptNumber).GreaterThan
+//@   pure
+//@   ensures[C05.num_gt] (= result (> (bigval (. n val)) (bigval (. o val))))
+//@ func interpreter.(*scriptNumber).GreaterThanOrEqual
+//@   pure
+//@   ensures[C05.num_ge] (= result (>= (bigval (. n val)) (bigval (. o val))))
+//@ func interpreter.(*scriptNumber).Equal
+//@   pure
+//@   ensures[C05.num_eq] (= result (= (bigval (. n val)) (bigval (. o val))))
+//@ func interpreter.(*scriptNumber).Bytes
+//@   loop 0 invariant (and (not (nil? cpy)) (>= (bigval cpy) 0) (or (>= (len result) 1) (> (bigval cpy) 0)))
+//@   loop 0 decreases (bigval cpy)
+//@ func interpreter.(*stack).PushInt
+//@   requires (spec.wf_num n)
